@@ -67,3 +67,26 @@ package tax
 //@   ensures ct == nil ==> (forall i int :: 0 <= i && i < len(t.Categories) ==> t.Categories[i].Code != code)
 //@   ensures ct != nil ==> (exists i int :: 0 <= i && i < len(t.Categories) && t.Categories[i] == ct && ct.Code == code && (forall j int :: 0 <= j && j < i ==> t.Categories[j].Code != code))
 //@   loop 1 invariant forall j int :: 0 <= j && j < idx ==> t.Categories[j].Code != code
+//
+// ---- C15: merge helpers never write into the shared (registered) definitions
+//
+//@ pred defsOK(l []*cbc.Definition) bool = forall i int :: 0 <= i && i < len(l) ==> l[i] != nil
+//@ pred keyIn(k cbc.Key, l []*cbc.Definition) bool = exists i int :: 0 <= i && i < len(l) && l[i].Key == k
+//
+//@ func (ts *TagSet) Merge(other) (r)
+//@   requires (ts != nil ==> defsOK(ts.List)) && (other != nil ==> defsOK(other.List))
+//@   ensures ts == nil ==> r == other
+//@   ensures ts != nil && (other == nil || ts.Schema != other.Schema) ==> r == ts
+//@   ensures [merged] ts != nil && other != nil && ts.Schema == other.Schema ==> r != nil && fresh(r) && r.Schema == ts.Schema && defsOK(r.List) && len(r.List) >= len(ts.List) && \
+//@        (forall i int :: 0 <= i && i < len(ts.List) ==> r.List[i] == ts.List[i]) && \
+//@        (forall i int :: 0 <= i && i < len(other.List) ==> keyIn(other.List[i].Key, r.List))
+//@   loop 1 invariant defsOK(nl) && len(nl) >= len(ts.List) && (forall i int :: 0 <= i && i < len(ts.List) ==> nl[i] == ts.List[i])
+//@   loop 1 invariant forall i int :: 0 <= i && i < idx ==> keyIn(other.List[i].Key, nl)
+//@   loop 1 invariant fresh(nl) || nl == nil
+//@   loop 2 invariant forall j int :: 0 <= j && j < idx ==> nl[j].Key != other.List[idx1].Key
+//
+//@ func (ts *TagSet) Keys() (r)
+//@   requires ts != nil ==> defsOK(ts.List)
+//@   ensures ts == nil ==> len(r) == 0
+//@   ensures ts != nil ==> len(r) == len(ts.List) && fresh(r) && (forall i int :: 0 <= i && i < len(r) ==> r[i] == ts.List[i].Key)
+//@   loop 1 invariant forall i int :: 0 <= i && i < idx ==> keys[i] == ts.List[i].Key
